@@ -7,6 +7,10 @@ real run : kind "script"   the real AsyncTLSStreamTransport (made by its own wra
            kind "session"  the same transport around a real ssl.SSLObject (recording proxy), talking through a re-fragmenting
                            in-memory pipe to an independent stdlib-ssl peer (or a second AsyncTLSStreamTransport), both
                            directions active;
+           kind "duplex"   two real AsyncTLSStreamTransport endpoints (real OpenSSL) joined by BOUNDED in-memory pipes
+                           (1 KiB … 64 KiB per direction; the wrapped transport's send_all suspends while the pipe is full),
+                           one reader and one or two sender tasks per side, all active at once, volumes around and well above
+                           the capacity: full-duplex bulk transfer under backpressure (vlib/c08_duplex.py);
            kind "blocking" SSLStreamTransport over a socketpair, relay thread re-fragmenting, stdlib SSLSocket peer.
 model run: script and session cases: the recorded engine answers + the observed schedule go to the Lean wrapper machine
            (endriver `tls08`), whose predicted actions (ssl calls with their arguments, lock traffic, send_all sizes and
@@ -18,6 +22,7 @@ oracle   : plaintext delivered == plaintext written, in order, both directions (
 """
 from __future__ import annotations
 
+import os
 from typing import Any
 
 from vlib import c08_run as R
@@ -27,23 +32,30 @@ ID = "C08"
 CLAIMED = True
 TITLE = "TLS transport is a transparent, encrypted byte stream"
 REQUIRED_THEOREMS = ["C08_write_exactly_once", "C08_provenance", "C08_conduit", "C08_transparent",
-                     "C08_transparent_quiescent", "C08_locks_exclusive", "C08_no_deadlock_partial"]
+                     "C08_transparent_quiescent", "C08_locks_exclusive", "C08_no_deadlock_partial",
+                     "C08_reader_needs_no_send_lock_when_nothing_pending", "C08_duplex_progress",
+                     "C08_lockalways_deadlock", "C08_fix1_residual_deadlock"]
 LEVEL_TEXT = (
     "Machine-checked proof (Lean 4) about a statement-level model of AsyncTLSStreamTransport's wrapper logic around an "
     "abstract SSL engine: for every engine behaviour, every event schedule of any number of tasks and every fragmentation, "
     "the bytes accepted by ssl.write followed by the backlog are exactly the bytes written (nothing dropped or duplicated "
     "on a retry), only bytes that came out of the outgoing BIO reach the wrapped transport, the two transport locks are "
-    "exclusive, ciphertext is fed in the order taken and output flushed before any wait for input; under the record-layer "
+    "exclusive, ciphertext is fed in the order taken and output flushed before any wait for input (by the task itself or by "
+    "a task already queued on the send lock), a task that needs ciphertext input never waits for the send lock unless it "
+    "is first in its queue with bytes of its own to flush (full-duplex progress; the two earlier versions of that branch "
+    "are shown to deadlock on a closed two-endpoint system with bounded pipes); under the record-layer "
     "laws TlsLaws the plaintext read on one side is a prefix of, and at quiescence equal to, the plaintext written on the "
     "other; plus differential correspondence of that model against the real transport driven by a scripted engine and by "
-    "real OpenSSL sessions (trace replay), plus an end-to-end plaintext/provenance/deadlock oracle."
+    "real OpenSSL sessions (trace replay, incl. full-duplex bulk transfers between two real endpoints over bounded pipes "
+    "with exact deadlock detection on a virtual-time loop), plus an end-to-end plaintext/provenance/deadlock oracle."
 )
 LEVEL_NOTE = (
     "Trusted: Lean kernel; axioms propext, Quot.sound, Classical.choice only. The hand model (EasyNet/Model/Tls08.lean) is "
     "tied to the code by the sampled correspondence check. OpenSSL's cryptography and record layer are outside the model: "
     "they enter as the hypothesis TlsLaws (validated on every recorded real trace), and 'encrypted' is established only as "
     "'came out of the outgoing BIO' plus the negative substring test. Liveness is proved as absence of wrapper-level "
-    "deadlock and flush-before-wait for all schedules (C08_no_deadlock_partial); termination of a whole session under fair "
+    "deadlock, flush-before-wait and absence of the reader -> send-lock-owner wait edge for all schedules "
+    "(C08_no_deadlock_partial, C08_duplex_progress); termination of a whole session under fair "
     "delivery is exercised by the real sessions on the virtual-time loop (hang detection), not proved. Cancellation and "
     "aclose/unwrap are not part of this model (C10, C09, C14). The blocking SSLStreamTransport is covered by its decision "
     "tables (shared with C04/C11) and an input/output oracle over a socketpair."
@@ -56,7 +68,8 @@ TRUSTED_BASE = [
     "hand-written model EasyNet/Model/Tls08.lean of lowlevel/api_async/transports/tls.py (AsyncTLSStreamTransport, "
     "_IncomingDataReader) and of asyncio.Lock's FIFO hand-over, tied by this check (sampled)",
     "harness: virtual-time loop, in-memory transports, scripted engine, recording proxy around ssl.SSLObject "
-    "(reads the outgoing BIO back and restores it), canonicaliser, endriver line parser",
+    "(reads the outgoing BIO back and restores it), bounded in-memory pipes with backpressure (vlib/c08_duplex.py), "
+    "canonicaliser, endriver line parser",
     "OpenSSL / ssl via TlsLaws (whole records, plaintext carried = plaintext accepted, read yields iff a complete record "
     "is available): validated on the recorded traces of every real session, not proved",
 ]
@@ -71,7 +84,10 @@ RULE = (
     "error; bytes consumed from / appended to the BIOs) x reader ops (recv, recv_into) x writer ops (send_all, non-byte "
     "views, send_all_from_iterable with empty chunks, optional second writer) x transport fragmentation, suspensions and "
     "OSError injection; session case = role x peer kind x TLS version x write sizes (0 B … 3 records) both ways x "
-    "fragment sizes (1 B … 64 KiB) x delays; non-trivial = a retried write after WANT_*, a partial write, a task parked on "
+    "fragment sizes (1 B … 64 KiB) x delays; duplex case = pipe capacity (1 KiB … 64 KiB per direction) x 1 or 2 sender "
+    "tasks per side x volumes around and up to 5x the capacity (or small on one side) x task creation order x start "
+    "delays x recv buffer sizes x fragment / copy-step sizes x TLS version x role x optional request/response gating; "
+    "non-trivial = a retried write after WANT_*, a partial write, a task parked on "
     "a transport lock, a read that had to wait, a multi-step handshake, or a real session; distinct by case digest"
 )
 
@@ -88,6 +104,13 @@ def run_real(case: dict) -> list[str]:
         for ln in lines:
             if ln.startswith("o.law ") and len(_law_problems) < 20:
                 _law_problems.append(f"TlsLaws violated on a recorded OpenSSL trace (seed {case.get('seed')}): {ln[6:]}")
+        return lines
+    if kind == "duplex":
+        from vlib import c08_duplex as D
+        lines = D.run_duplex(case)
+        for ln in lines:
+            if ln.startswith("o.law ") and len(_law_problems) < 20:
+                _law_problems.append(f"TlsLaws violated on a recorded OpenSSL trace (duplex seed {case.get('seed')}): {ln[6:]}")
         return lines
     if kind == "blocking":
         from vlib import c08_blocking as B
@@ -111,7 +134,9 @@ def model_input(case: dict, real: list[str]):
     if any(ln.startswith(("deadlock", "harness-exc", "lock-cancelled")) or ln.endswith("raise cancelled") for ln in real):
         return None
     ops = [ln for ln in real if ln.startswith("eng ")] + [ln[3:] for ln in real if ln.startswith("op ")]
-    return f"tls08 {int(bool(case.get('compat', True)))}", ops
+    # VERIF_C08_VARIANT=pop | lockalways selects a deliberately different model (to see that the correspondence can fail)
+    variant = os.environ.get("VERIF_C08_VARIANT", "")
+    return f"tls08 {int(bool(case.get('compat', True)))}" + (f" {variant}" if variant else ""), ops
 
 
 
@@ -172,6 +197,22 @@ def oracle(case: dict, real: list[str]) -> str | None:
         if o["o.fed-is-taken"].split()[1] != "1":
             return "ciphertext written to the incoming BIO is not the ciphertext taken from the wrapped transport, in order"
         return None
+    if kind == "duplex":
+        if "o.hs-error" in o:
+            return "the handshake did not complete: " + o["o.hs-error"].split(None, 1)[1]
+        if "o.task-error" in o:
+            return "a transfer failed although nothing reported an error: " + o["o.task-error"].split(None, 1)[1]
+        for k, what in (("o.a2b", "written on side a, read on side b"), ("o.b2a", "written on side b, read on side a")):
+            if k not in o:
+                return "no oracle data"
+            kv = _kv(o[k])
+            if kv["written"] != kv["received"]:
+                return f"plaintext {what}: received {kv['received']} != written {kv['written']} (prefix={kv['prefix']})"
+        if o.get("o.leak", "o.leak -").split()[1] != "-":
+            return "plaintext occurs verbatim in the bytes handed to the wrapped transport (offset " + o["o.leak"].split()[1] + ")"
+        if "o.accepted-prefix" in o and o["o.accepted-prefix"].split()[1] != "1":
+            return "bytes accepted by ssl.write are not a prefix of the bytes written"
+        return None
     # ---- real session
     if "o.hs-error" in o:
         return "the handshake did not complete: " + o["o.hs-error"].split(None, 1)[1]
@@ -201,6 +242,12 @@ def nontrivial(case: dict, real: list[str]) -> str | None:
         return f"session/{case.get('role', 'client')}/{case.get('peer', 'raw')}/{case.get('ver', '1.3')}"
     if kind == "blocking":
         return "blocking/" + case.get("role", "client")
+    if kind == "duplex":
+        bp = next((_kv(ln) for ln in real if ln.startswith("o.backpressure ")), None)
+        both = bp is not None and int(bp["a2b"]) > 0 and int(bp["b2a"]) > 0
+        one = bp is not None and (int(bp["a2b"]) > 0 or int(bp["b2a"]) > 0)
+        ns = f"{len(case.get('a_send') or [])}x{len(case.get('b_send') or [])}"
+        return f"duplex/{'backpressure-both' if both else 'backpressure-one' if one else 'no-backpressure'}/{ns}/{case.get('order', 'readers-first')}"
     flags = []
     blocked: set[str] = set()
     for ln in real:
@@ -227,6 +274,9 @@ def nontrivial(case: dict, real: list[str]) -> str | None:
 
 def shrink(case: dict):
     kind = case.get("kind", "script")
+    if "note" in case:                       # the comment of a corpus case does not describe its shrunk descendants
+        case = {k: v for k, v in case.items() if k != "note"}
+        yield case
     if kind == "script":
         for key in ("writer2", "reader", "writer", "reads", "writes", "hs"):
             lst = case.get(key) or []
@@ -264,6 +314,43 @@ def shrink(case: dict):
         for i, n in enumerate(case.get("b2a") or []):
             if n > 16:
                 yield {**case, "b2a": case["b2a"][:i] + [16] + case["b2a"][i + 1:]}
+    elif kind == "duplex":
+        for key in ("a_send", "b_send"):
+            tasks = case.get(key) or []
+            if len(tasks) > 1:                                  # drop a whole sender task
+                for i in range(len(tasks)):
+                    yield {**case, key: tasks[:i] + tasks[i + 1:]}
+            for i, sizes in enumerate(tasks):                   # drop one send_all of a task
+                if len(sizes) > 1:
+                    for j in range(len(sizes)):
+                        yield {**case, key: tasks[:i] + [sizes[:j] + sizes[j + 1:]] + tasks[i + 1:]}
+        for key in ("start", "frag", "chunk", "b_after"):
+            if case.get(key):
+                yield {k: v for k, v in case.items() if k != key}
+        if case.get("order", "readers-first") != "readers-first":
+            yield {**case, "order": "readers-first"}
+        if case.get("ver", "1.3") != "1.3":
+            yield {**case, "ver": "1.3"}
+        if case.get("role", "client") != "client":
+            yield {**case, "role": "client"}
+        if case.get("a_recv") not in (None, ["recv", 16384]):
+            yield {**case, "a_recv": ["recv", 16384]}
+        if case.get("b_recv") not in (None, 16384):
+            yield {**case, "b_recv": 16384}
+        cap = int(case.get("cap", 65536))
+        for smaller in (1024, cap // 4, cap // 2):              # a smaller pipe with volumes scaled to it
+            if 1024 <= smaller < cap:
+                f = smaller / cap
+                yield {**case, "cap": smaller,
+                       "a_send": [[max(1, int(n * f)) for n in t] for t in case.get("a_send") or []],
+                       "b_send": [[max(1, int(n * f)) for n in t] for t in case.get("b_send") or []]}
+        for key in ("a_send", "b_send"):                        # smaller volumes: twice the capacity, the capacity, halves
+            tasks = case.get(key) or []
+            for i, sizes in enumerate(tasks):
+                for j, n in enumerate(sizes):
+                    for m in (2 * cap, cap, n // 2):
+                        if 0 < m < n:
+                            yield {**case, key: tasks[:i] + [sizes[:j] + [m] + sizes[j + 1:]] + tasks[i + 1:]}
 
 
 def known_key(case: dict, real: list[str], why: str) -> str:
@@ -416,12 +503,67 @@ def _gen_blocking(rng, n: int) -> dict:
             "iter": rng.random() < 0.5, "frag": frag, "recv": rng.choice([1, 100, 16384, 70000]) if frag >= 100 else rng.choice([100, 16384])}
 
 
+_CAPS = [1024, 1024, 2048, 4096, 4096, 8192, 16384, 16384, 65536]
+
+
+def _gen_duplex(rng, n: int) -> dict:
+    """full-duplex bulk transfer under backpressure: both directions carry more than the pipe holds (most of the time)"""
+    cap = rng.choice(_CAPS)
+    limit = max(4 * cap, 20000) if cap < 65536 else 200000       # plaintext per direction (keeps the replay small)
+
+    def volumes(kind: str, ntasks: int) -> list[list[int]]:
+        if kind == "small":                                      # fits in the pipe with the record overhead: never blocks
+            pool = [1, 100, cap // 8, cap // 4]
+            return [[rng.choice(pool) for _ in range(rng.randint(1, 2))] for _ in range(ntasks)]
+        pool = [cap - 100, cap, cap + 1, cap + cap // 2, 2 * cap, 3 * cap + 7, 5 * cap, 16384, 16385, 40000]
+        out = []
+        for _ in range(ntasks):
+            sizes, budget = [], limit // ntasks
+            for _ in range(rng.randint(1, 3)):
+                s = min(rng.choice(pool), budget)
+                if s <= 0:
+                    break
+                sizes.append(s)
+                budget -= s
+            out.append(sizes or [cap + 1])
+        return out
+
+    shape = rng.random()
+    na = 2 if rng.random() < 0.3 else 1
+    nb = 2 if rng.random() < 0.3 else 1
+    if shape < 0.70:
+        ka, kb = "big", "big"
+    elif shape < 0.85:
+        ka, kb = "big", "small"
+    else:
+        ka, kb = "small", "big"
+    # (two concurrent senders on BOTH sides with BOTH directions above the capacity is the configuration in which
+    #  docs/C08-fix-1.patch alone still deadlocks: docs/C08.md, `C08_fix1_residual_deadlock`)
+    a_send, b_send = volumes(ka, na), volumes(kb, nb)
+    total = max(sum(map(sum, a_send)), sum(map(sum, b_send)))
+    bufs = [n for n in (1024, 4096, 16384, 16384, 65536, 70000) if n * 150 >= total]
+    case = {"kind": "duplex", "seed": n, "cap": cap, "ver": rng.choice(["1.3", "1.3", "1.3", "1.2"]),
+            "role": rng.choice(["client", "server"]), "a_send": a_send, "b_send": b_send,
+            "a_recv": [rng.choice(["recv", "recv", "recvinto"]), rng.choice(bufs)], "b_recv": rng.choice(bufs),
+            "order": rng.choice(["readers-first", "senders-first", "mixed"]),
+            "start": {k: rng.choice([0, 0, 0, 1, 2, 3]) for k in ("a1", "a2", "a3", "b1", "b2", "b3")},
+            "frag": [rng.choice([0, 0, 1000, 4096, cap]), rng.choice([0, 0, 1000, 4096, cap])],
+            "chunk": [rng.choice([0, 0, 512, 4096]), rng.choice([0, 0, 512, 4096])]}
+    if rng.random() < 0.2:
+        # request / response: side b answers only after it has received (part of) what side a sends
+        case["b_after"] = rng.choice([1, sum(map(sum, a_send)) // 2, sum(map(sum, a_send))])
+    return case
+
+
 def generate(rng, tier: str, boost: int):
     n_script = (6000 if tier == "quick" else 60000) * boost
     n_sess = (150 if tier == "quick" else 1500) * boost
     n_blk = (8 if tier == "quick" else 60) * (1 if boost == 1 else 2)
+    dup_every = 2 if tier == "quick" else 3        # 75 / 500 duplex sessions
     for i in range(n_sess):
         yield _gen_session(rng, rng.randrange(1 << 30))
+        if i % dup_every == 0:
+            yield _gen_duplex(rng, rng.randrange(1 << 30))
         for _ in range(n_script // max(n_sess, 1)):
             yield _gen_script(rng)
     for i in range(n_blk):
